@@ -30,7 +30,7 @@ struct servent *__wrap_getservbyname(const char *name, const char *proto)
     if (g_se) { free(g_se->s_name); free(g_se->s_proto); free(g_se); g_se = NULL; }
     int found = 0, port = 0;
     if (g_lk == LK_SERV_TCP && proto && !strcmp(proto, "tcp")) { found = 1; port = 4242; }
-    else if (g_lk == LK_SERV_UDP && proto && !strcmp(proto, "udp")) { found = 1; port = 4343; }
+    else if (g_lk == LK_SERV_UDP && proto && !strcmp(proto, "udp")) { found = 1; port = 60177; }      /* above 32767: a port is an unsigned 16-bit number */
     else if (g_lk == LK_SERV_NOPROTO && proto && !strcmp(proto, "tcp")) { found = 1; port = 4444; }
     if (!found) return NULL;
     g_se = calloc(1, sizeof *g_se); g_se->s_name = strdup(name ? name : ""); g_se->s_proto = strdup(proto); g_se->s_port = htons((unsigned short) port);
@@ -103,7 +103,7 @@ static void tup_case(uint64_t i, void *ctx)
     spif_url_t u = parse(text, 0xA5);
     if (!u) { FAIL("spif_url_new_from_ptr", "model:return", shape, "returned NULL"); return; }
     const char *exp[7] = { t.proto, t.user, t.pass, t.host, t.port, t.path, t.query }, *got[7];
-    if (t.proto && !t.port) exp[4] = t.lk == LK_SERV_TCP ? "4242" : (t.lk == LK_SERV_UDP ? "4343" : NULL);
+    if (t.proto && !t.port) exp[4] = t.lk == LK_SERV_TCP ? "4242" : (t.lk == LK_SERV_UDP ? "60177" : NULL);
     if (!amb && !(t.proto && !t.port) && g_lookups) FAIL("spif_url_parse", "model:needless-lookup", shape, "service database consulted although %s", t.proto ? "a port was given" : "no protocol was given");
     components(u, got);
     if (!amb) for (int k = 0; k < 7; k++) if (!same(exp[k], got[k])) { FAIL("spif_url_parse", "model:component", shape, "%s is %s%s%s, expected %s%s%s", CNAME[k], got[k] ? "\"" : "", got[k] ? got[k] : "absent", got[k] ? "\"" : "",
